@@ -130,6 +130,11 @@ func (r *RibEntry) updateNexthopsEnc() {
 							routes = append(routes, route)
 						}
 					}
+					// Inheritance stops at (and includes) the nearest
+					// prefix holding a capture route
+					if entry.HasCaptureRoute() {
+						break
+					}
 				}
 			}
 
